@@ -278,6 +278,19 @@ class C03(Prop):
         return ["lit", rng.choice(LITS), 0]
 
     def gen_piece(self, rng, depth, opts):
+        if rng.chance(1, 16):
+            # empty group / empty alternation branch: nullable, never quantified
+            k = rng.below(4)
+            x = ["lit", rng.choice(LITS[:8]), 0]
+            if rng.chance(1, 3):
+                x = ["cat", [x, ["lit", rng.choice(LITS[:8]), 0]]]
+            if k == 0:
+                return ["group", ["empty"]], True
+            if k == 1:
+                return ["group", ["alt", [["empty"], x]]], True
+            if k == 2:
+                return ["group", ["alt", [x, ["empty"]]]], True
+            return ["group", ["group", ["empty"]]], True
         a = self.gen_atom(rng, depth, opts)
         if not rng.chance(35, 100):
             return a, False
@@ -469,7 +482,46 @@ class C03(Prop):
             src += 'rule m%d { condition: "%s" matches %s }\n' % (i, litx, retext)
         return {"node": node, "ci": ci, "da": da, "mods": mods, "src": src, "inputs": inputs, "subjects": subjects}
 
+    def gen_raw_wide_boundary(self, rng):
+        """wide regex with a word boundary and no literal (scanned raw): the leftmost widened candidate fails
+        its boundary check while a later start inside the same candidate is a member."""
+        lower = ["class", ["br", [["range", 0x61, 0x7A]], False]]
+        digit = ["class", ["perl", "d", False]]
+        word = ["class", ["perl", "w", False]]
+        asr = lambda: ["assert", rng.choice(["wb", "nwb"])]
+        rep = lambda c: ["rep", c, rng.choice([["+"], ["n,m", 1, 3], ["n,", 1]]), not rng.chance(1, 3)]
+        shape = rng.below(4)
+        if shape == 0:
+            body = [asr(), rep(lower), rep(digit)]
+        elif shape == 1:
+            body = [asr(), word, word, asr()]
+        elif shape == 2:
+            body = [rep(lower), digit, asr()]
+        else:
+            body = [asr(), rep(word), ["assert", "end"]]
+        node = ["cat", body]
+        mods = {"nocase": False, "wide": True, "ascii": rng.chance(1, 4), "fullword": False}
+        ci, da = rng.chance(1, 5), False
+        retext = "/%s/%s" % (re_text(node), "i" if ci else "")
+        modtext = "".join(" " + m for m in ("nocase", "wide", "ascii", "fullword") if mods[m])
+        inputs = []
+        for i in range(4):
+            r = rng.fork("rw%d" % i)
+            txt = b""
+            for _ in range(r.range(1, 3)):
+                txt += r.choice([b" ", b"", b"-", b"1"]) + r.bytes(r.range(1, 4), [0x61, 0x62, 0x63]) + r.bytes(r.range(0, 2), [0x31, 0x32]) + r.choice([b"", b" ", b"x"])
+            m = widen(txt) if (not mods["ascii"] or r.chance(2, 3)) else txt
+            inputs.append(m[:64].hex())
+        subjects = ["20616231", "6162"]
+        src = "rule r { strings: $a = %s%s condition: $a or true }\n" % (retext, modtext)
+        for i, sj in enumerate(subjects):
+            litx = "".join("\\x%02x" % b for b in bytes.fromhex(sj))
+            src += 'rule m%d { condition: "%s" matches %s }\n' % (i, litx, retext)
+        return {"node": node, "ci": ci, "da": da, "mods": mods, "src": src, "inputs": inputs, "subjects": subjects}
+
     def gen_case(self, rng):
+        if rng.chance(1, 16):
+            return self.gen_raw_wide_boundary(rng)
         if rng.chance(1, 14):
             return self.gen_wide_boundary_family(rng)
         if rng.chance(1, 12):
@@ -577,8 +629,10 @@ class C03(Prop):
                 if (self.rule_of(s, "m%d" % i) is None) != (self.rule_of(first, "m%d" % i) is None):
                     return (False, False, 0)
         ins = glist([gbytes(bytes.fromhex(h)) for h in case["inputs"]])
-        return "C03_case %s %s %s %s %s %s %s" % (g_node(case["node"]), gbool(case["ci"]), gbool(case["da"]),
-                                                  _hir.g_sdesc(out["desc"][0]), ins, glist(outs), subjects)
+        kr, kf = _hir.half_codes(out["desc"][0]["kind"])
+        return "let d := %s in with_kinds (kinds_ok d %d %d) (C03_case %s %s %s d %s %s %s)" % (
+            _hir.g_sdesc(out["desc"][0]), kr, kf, g_node(case["node"]), gbool(case["ci"]), gbool(case["da"]),
+            ins, glist(outs), subjects)
 
     def nontrivial(self, case, out):
         if not isinstance(out, dict) or "scans" not in out or not out["scans"]:
